@@ -14,7 +14,17 @@ func MarshalCode(code *Code) ([]byte, error) {
 	if err != nil {
 		return nil, err
 	}
-	return json.Marshal(cdef)
+	data, err := json.Marshal(cdef)
+	if err != nil {
+		return nil, err
+	}
+	// The symbol tables are written as a tree that is as deep as the blocks of
+	// the program are nested. encoding/json writes any depth but reads no more
+	// than 10000 levels: refuse to produce data that UnmarshalCode cannot read.
+	if !json.Valid(data) {
+		return nil, fmt.Errorf("marshal error: the code is nested too deeply to be read back")
+	}
+	return data, nil
 }
 
 // UnmarshalCode converts a JSON representation of a Code object into a Code.
